@@ -126,4 +126,49 @@ theorem scanAreas_in_areas (rec : Seq) (minLen : Int) (hL : 0 < rec.length) :
           exact ⟨a, List.mem_cons_of_mem _ ha, hin⟩
     · simp only [reduceCtorEq] at h
 
+/-- what the scanning loop of `find_all_orfs` returns: for every area, the forward scan of its
+    chunk and the reverse scan of the chunk's reverse complement — nothing else, nothing less -/
+theorem scanAreas_mem (rec : Seq) (minLen : Int) :
+    ∀ (areas : List (Int × Int)) (locs : List Loc), scanAreas rec minLen areas = some locs →
+      ∀ l, l ∈ locs ↔ ∃ a ∈ areas,
+        l ∈ scanOrfs (chunkOf rec a.1 a.2) true a.1 minLen (some (rec.length : Int)) ∨
+        l ∈ scanOrfs (revComp (chunkOf rec a.1 a.2)) false a.1 minLen (some (rec.length : Int)) := by
+  intro areas
+  induction areas with
+  | nil =>
+    intro locs h l
+    simp only [scanAreas, Option.some.injEq] at h
+    subst h
+    simp only [List.not_mem_nil, false_and, exists_false]
+  | cons a rest ih =>
+    intro locs h l
+    obtain ⟨st, en⟩ := a
+    unfold scanAreas at h
+    split at h
+    · cases hrest : scanAreas rec minLen rest with
+      | none => rw [hrest] at h; simp only [Option.map_none, reduceCtorEq] at h
+      | some restLocs =>
+        rw [hrest] at h
+        simp only [Option.map_some, Option.some.injEq] at h
+        subst h
+        simp only [List.mem_append, ih restLocs hrest l, List.mem_cons, exists_eq_or_imp]
+    · simp only [reduceCtorEq] at h
+
+/-- the loop fails only on `assert end <= len(record)` -/
+theorem scanAreas_isSome (rec : Seq) (minLen : Int) :
+    ∀ (areas : List (Int × Int)), (∀ a ∈ areas, a.2 ≤ (rec.length : Int)) →
+      ∃ locs, scanAreas rec minLen areas = some locs := by
+  intro areas
+  induction areas with
+  | nil => intro _; exact ⟨[], rfl⟩
+  | cons a rest ih =>
+    intro h
+    obtain ⟨st, en⟩ := a
+    obtain ⟨locs, hl⟩ := ih (fun a ha => h a (List.mem_cons_of_mem _ ha))
+    have := h (st, en) List.mem_cons_self
+    simp only at this
+    unfold scanAreas
+    rw [if_pos this, hl]
+    exact ⟨_, rfl⟩
+
 end ASV.Orf
